@@ -1979,6 +1979,13 @@ impl Connection {
         if buf.remaining() >= 16 + 2 {
             buf.set_position(16);
             let len = buf.get_u16();
+            if len < 19 {
+                // Shorter than a BGP header: without this check the
+                // subtraction below underflows.
+                return Err(ParseError::form_error(
+                    "BGP message length below 19",
+                ));
+            }
             if buf.remaining() >= ((len as usize) - 18) {
                 //return Ok(len)
                 buf.set_position(0);
